@@ -108,6 +108,7 @@ def siteOutcome (site : String) (code : Nat) : Option Outcome :=
 def cop? : Sexp → Option COp
   | .list [.atom "reopen"] => some .reopen
   | .list [.atom "close"] => some .close
+  | .list [.atom "tick", d] => (nat? d).map .tick
   | .list [.atom "connect", rc] => do some (.connect (← nat? rc) none)
   | .list [.atom "connect", rc, .atom "-"] => do some (.connect (← nat? rc) none)
   | .list [.atom "connect", rc, h] => do some (.connect (← nat? rc) (some (← hresp? h)))
@@ -146,10 +147,10 @@ def handle : Sexp → Sexp
     | some k, some wl, some ops, some sends, some recvs => connReply k wl ops sends recvs
     | _, _, _, _, _ => sym "bad-request"
   | .list [.atom "noop"] => sym "noop"
-  | .list [.atom "cli", tls, .list ops] =>
-    match bool? tls, ops.mapM cop? with
-    | some tls, some ops => .list (cliSteps { tls := tls } ops)
-    | _, _ => sym "bad-request"
+  | .list [.atom "cli", tls, recon, tmo, .list ops] =>
+    match bool? tls, bool? recon, nat? tmo, ops.mapM cop? with
+    | some tls, some recon, some tmo, some ops => .list (cliSteps (Cli.make tls recon tmo) ops)
+    | _, _, _, _ => sym "bad-request"
   | .list [.atom "idle", _, t, .list ops] =>
     match nat? t, ops.mapM sev? with
     | some t, some ops => .list (idleSteps [] { tymeout := t } ops)
